@@ -365,7 +365,9 @@ func init() {
 							free = false
 						}
 					}
-					if free {
+					// (a key of an unknown algorithm accepts any signature: only a
+					// recognised key type makes the misattribution detectable)
+					if free && uc.PublicKeys[cand].Algorithm == types.SpecifierEd25519 {
 						s.PublicKeyIndex = cand
 						return true
 					}
